@@ -169,12 +169,33 @@ func C09(c *Ctx) {
 	c.Rule(r2, "in wal.Manager.Sync and Close the buffered writer's Flush succeeds before the active file's Sync, and (Close) Sync succeeds before the file is closed on the success path")
 	flush := Named("(*bufio.Writer).Flush")
 	fsync := Named("(vfs.File).Sync")
-	for _, name := range []string{"Manager.Sync", "Manager.Close"} {
+	for _, name := range []string{"Manager.Sync", "Manager.Close", "Manager.switchSegmentLocked"} {
 		f := c.Fn("wal", name)
 		if f == nil {
 			continue
 		}
 		beforeOK(c, r2, f, "writer.Flush", flush, "active.Sync", fsync, 1, nilFieldEdges(f, "wal.Manager", "writer"))
+	}
+	if f := c.Fn("wal", "Manager.switchSegmentLocked"); f != nil {
+		// the outgoing segment is synced and closed before the next one is opened
+		syncs := Calls(f, false, fsync)
+		for i, op := range need(c, r2, f, false, "FS.OpenFileHandle", Named("(vfs.FS).OpenFileHandle"), 1) {
+			succOK(c, r2, key(f, fmt.Sprintf("open-next[%d]<-ok(active.Sync)|no-active", i+1)), f, syncs, "active.Sync", op.(ssa.Instruction), "opening the next segment", nilFieldEdges(f, "wal.Manager", "active"))
+		}
+	}
+	if f := c.Fn("wal", "Manager.AppendRecords"); f != nil {
+		// SyncOnWrite: Flush then Sync, errors returned
+		for _, m := range []Matcher{flush, fsync} {
+			for i, x := range Calls(f, false, m) {
+				errPropagated(c, r2, key(f, fmt.Sprintf("%s[%d]#error-propagated", CalleeObj(x.Common()).Name(), i+1)), f, x)
+			}
+		}
+		for i, e := range need(c, r2, f, false, "EncodeRecord", Named("wal.EncodeRecord"), 1) {
+			errPropagated(c, r2, key(f, fmt.Sprintf("EncodeRecord[%d]#error-propagated", i+1)), f, e)
+		}
+		for i, e := range need(c, r2, f, false, "ensureCapacity", Named("wal.(*Manager).ensureCapacity"), 1) {
+			errPropagated(c, r2, key(f, fmt.Sprintf("ensureCapacity[%d]#error-propagated", i+1)), f, e)
+		}
 	}
 	// success return of Close passes Sync
 	if f := c.Fn("wal", "Manager.Close"); f != nil {
